@@ -1,13 +1,13 @@
 package checks
 
 import (
-	_ "verif/gen/n1/server"
-	_ "verif/gen/n2/server"
 	"encoding/json"
 	"fmt"
 	"os"
 	"strings"
 	"testing"
+	_ "verif/gen/n1/server"
+	_ "verif/gen/n2/server"
 )
 
 // DBGC11="f1/mode0/negative/none/value=false/queue=true" go test -run TestDbgC11 ./checks/
